@@ -149,7 +149,7 @@ func runSingle(alpha []upd, seq []int) (vs []viol, outcome string) {
 // cluster BFS -----------------------------------------------------------------------------------
 
 type event struct {
-	Kind string // "obs" | "gossip"
+	Kind string // "obs" | "gossip" | "leave" | "join" | "update" (memberlist events about member J, delivered to node I)
 	I, J int
 	U    int
 }
@@ -157,6 +157,9 @@ type event struct {
 func (e event) String(alpha []upd) string {
 	if e.Kind == "obs" {
 		return fmt.Sprintf("node%d observes %s", e.I, alpha[e.U])
+	}
+	if e.Kind != "gossip" {
+		return fmt.Sprintf("node%d is told by memberlist: member with node id %d %s", e.I, e.J, e.Kind)
 	}
 	return fmt.Sprintf("node%d gossips to node%d", e.I, e.J)
 }
@@ -183,6 +186,12 @@ func (w *world) apply(alpha []upd, e event) {
 		w.nodes[e.I].Notify()
 		w.sets[e.I][alpha[e.U]] = true
 		w.local[e.I] = e.U
+		return
+	}
+	if e.Kind != "gossip" {
+		// a membership event carries no shard information: the view must not change (the real
+		// handlers re-merge the node's own local observation, which the node already has)
+		w.nodes[e.I].MemberEvent(e.Kind, uint64(e.J))
 		return
 	}
 	// LocalState merges the sender's local info first (as the real delegate does)
@@ -230,6 +239,12 @@ func runCluster(r *evid.Run, alpha []upd, nNodes, depth int, localAlpha []int) {
 		for j := 0; j < nNodes; j++ {
 			if i != j {
 				events = append(events, event{"gossip", i, j, 0})
+			}
+		}
+		// memberlist events about the members that lead some term of the ground truth
+		for _, kind := range []string{"leave", "join", "update"} {
+			for _, id := range []int{1, 2} {
+				events = append(events, event{kind, i, id, 0})
 			}
 		}
 	}
@@ -466,7 +481,7 @@ func Run(r *evid.Run) {
 	if r.Thorough() {
 		depth = 5
 	}
-	r.Rule(fmt.Sprintf("(a) single node: every sequence (with repetition) of length 0..%d over %d updates consistent with a ground truth of terms 1..3 (one leader per term) and config indices 1..3 incl. no-leader and empty updates, fed to the real shardView one per call and all in one call; after every step the view must equal (leader of the highest leader-bearing term, membership of the highest config index) of the SET of updates delivered - hence order- and repetition-independent - and term/leader/config index never regress. (b) cluster: BFS over {node i observes a local Raft update (through the real toShardViewList/Notify), node i gossips to node j (real delegate LocalState -> JSON -> MergeRemoteState)} with a visited set on the tuple of complete views + local observations; same invariants per node against the set of causally delivered updates; agreement after all-pairs gossip from every new state. (c) concurrent callers: a view holding nothing or one update, two (thorough: also three) writers each calling the real update() with one update of a 5-update subset (all unordered combinations) next to a reader that looks twice: every interleaving at statement granularity (points before every statement of update and shardInfo) up to 2 preemptions (thorough: 4), the view's RWMutex made cooperative by the build overlay; the final view must be the expected one of the set and the reader never sees term/leader/config index regress. Non-trivial: sequence contains a leader-bearing update; distinct = distinct final views", depth, len(alpha)))
+	r.Rule(fmt.Sprintf("(a) single node: every sequence (with repetition) of length 0..%d over %d updates consistent with a ground truth of terms 1..3 (one leader per term) and config indices 1..3 incl. no-leader and empty updates, fed to the real shardView one per call and all in one call; after every step the view must equal (leader of the highest leader-bearing term, membership of the highest config index) of the SET of updates delivered - hence order- and repetition-independent - and term/leader/config index never regress. (b) cluster: BFS over {node i observes a local Raft update (through the real toShardViewList/Cluster.Notify), node i gossips to node j (real delegate LocalState -> JSON -> MergeRemoteState), memberlist tells node i that a member left / joined / was updated (real Cluster.NotifyLeave/NotifyJoin/NotifyUpdate)} with a visited set on the tuple of complete views + local observations; same invariants per node against the set of causally delivered updates; agreement after all-pairs gossip from every new state. (c) concurrent callers: a view holding nothing or one update, two (thorough: also three) writers each calling the real update() with one update of a 5-update subset (all unordered combinations) next to a reader that looks twice: every interleaving at statement granularity (points before every statement of update and shardInfo) up to 2 preemptions (thorough: 4), the view's RWMutex made cooperative by the build overlay; the final view must be the expected one of the set and the reader never sees term/leader/config index regress. Non-trivial: sequence contains a leader-bearing update; distinct = distinct final views", depth, len(alpha)))
 	total := par.SeqCount(len(alpha), depth)
 	par.For(total, r.Expired, func(i int64) {
 		seq := par.SeqAt(len(alpha), depth, i)
